@@ -308,4 +308,89 @@ theorem aggOne_tree_matches_source (E now : Nat) (c : Cache) (r : CheckResult) :
       by_cases hg : r.trigger.blockNumber > old.trigger.blockNumber <;> simp [hp, hg, Gen.Src.c13CacheWriteTreeKind]
   · simp [hp, Gen.Src.c13CacheWriteTreeKind]
 
+/-! ### zero totals, life cycle, `Observer.Process` -/
+
+/-- **the error test at a zero total**: with `Total() == 0` the source's condition is false whatever the failure
+count and the recorded error are — no batch, no error -/
+theorem zero_total_matches_source (failures : Nat) (hasErr : Bool) :
+    Gen.Src.c13TooManyErrors (Gen.Src.c13Total 0 0) failures hasErr = false := by
+  simp [Gen.Src.c13TooManyErrors, Gen.Src.c13Total]
+
+/-- **the rates are computed only after at least one batch**: in `parallelCheck` the statement that calls
+`result.SuccessRate()` / `result.FailureRate()` (mark 1, exit 3) is reached only with `Total() ≠ 0` (and only after
+something was run) — so the `unsafeTotal() == 0` arms of the two rate functions are never entered from the runner;
+with a zero total the source goes on to the error test, which then fails (exit 5: `return result, nil`) -/
+theorem rates_need_batches_matches_source (nPayloads nToRun total failures : Nat) (hasErr : Bool) :
+    (Gen.Src.c13RatesTreeMark (Gen.Src.c13RatesTree nPayloads nToRun total failures hasErr) = 1 →
+      total ≠ 0 ∧ nToRun ≠ 0 ∧ nPayloads ≠ 0) ∧
+    (nPayloads ≠ 0 → nToRun ≠ 0 → total = 0 →
+      Gen.Src.c13RatesTree nPayloads nToRun total failures hasErr = 5 ∧ Gen.Src.c13RatesTreeKind 5 = 1 ∧
+      Gen.Src.c13RatesTreeNil1 5 = false ∧ Gen.Src.c13RatesTreeNil2 5 = true) := by
+  constructor
+  · unfold Gen.Src.c13RatesTree
+    by_cases h1 : nPayloads = 0
+    · simp [h1, Gen.Src.c13RatesTreeMark]
+    · by_cases h2 : nToRun = 0
+      · simp [h1, h2, Gen.Src.c13RatesTreeMark]
+      · by_cases h3 : total = 0
+        · simp only [h1, h2, h3, decide_false, decide_true, if_true, if_false, Bool.false_eq_true]
+          split <;> simp [Gen.Src.c13RatesTreeMark]
+        · simp [h1, h2, h3]
+  · intro h1 h2 h3
+    subst h3
+    simp [Gen.Src.c13RatesTree, h1, h2, Gen.Src.c13RatesTreeKind, Gen.Src.c13RatesTreeNil1, Gen.Src.c13RatesTreeNil2]
+
+/-- **`Runner.Start` / `Runner.Close` are the source's decisions**: `Start` answers a non-`nil` error at its first
+`return` exactly when `o.running.Load()`, and `nil` at the second (after the flag was set and the runner closed);
+`Close` answers its error exactly when `!o.running.Load()` -/
+theorem lifeStep_matches_source (running : Bool) :
+    lifeStep running .start =
+      (if Gen.Src.c13StartTree running = 1 then (running, true) else (true, false)) ∧
+    (lifeStep running .start).2 = !Gen.Src.c13StartTreeNil1 (Gen.Src.c13StartTree running) ∧
+    Gen.Src.c13StartTreeKind (Gen.Src.c13StartTree running) = 1 ∧
+    lifeStep running .close =
+      (if Gen.Src.c13CloseNotRunning running then (running, true) else (false, false)) := by
+  cases running <;> simp [lifeStep, Gen.Src.c13StartTree, Gen.Src.c13StartTreeNil1, Gen.Src.c13StartTreeKind,
+    Gen.Src.c13CloseNotRunning]
+
+/-- **one iteration of the pre-processor loop of `Process` is the source's decision tree**: exit 1 (`return err`)
+exactly when the pre-processor failed, else the loop goes on with what it returned -/
+theorem runPres_tree_matches_source {α} (p : PreSpec) (ps : List PreSpec) (l : List α) :
+    runPres (p :: ps) l =
+      (if Gen.Src.c13PreTree p.fails = 1 then (none, 1)
+       else ((runPres ps (preApply p.kind l)).1, (runPres ps (preApply p.kind l)).2 + 1)) ∧
+    Gen.Src.c13PreTreeKind 1 = 1 ∧ Gen.Src.c13PreTreeNil1 1 = false := by
+  refine ⟨?_, rfl, rfl⟩
+  simp only [runPres, Gen.Src.c13PreTree]
+  cases p.fails <;> simp
+
+/-- which error `Process` answers at each exit of its body (2 is the `return err` inside the pre-processor loop) -/
+def processExitCode : Nat → Nat
+  | 1 => 1
+  | 2 => 2
+  | 3 => 3
+  | 4 => 4
+  | _ => 0
+
+/-- **`Observer.Process` is the source's decision tree**: the tick's error first, then (unless the pre-processor
+loop returned) the processor's, then the post-processor's, `nil` only at the last `return`; processor and
+post-processor are reached only on the paths past the earlier tests -/
+theorem process_tree_matches_source (tickFails : Bool) (tick : List Payload) (pres : List PreSpec)
+    (run : List Payload → Ret) (postFails : Bool) :
+    let preFailed := (runPres pres tick).1.isNone
+    let ran := ((runPres pres tick).1.map run)
+    let exit := if !tickFails && preFailed then 2
+                else Gen.Src.c13ProcessTree tickFails preFailed ((ran.map (·.err)).getD false) postFails
+    (process tickFails tick pres run postFails).code = processExitCode exit ∧
+    ((process tickFails tick pres run postFails).code = 0 ↔ Gen.Src.c13ProcessTreeNil1 exit = true) ∧
+    Gen.Src.c13ProcessTreeKind exit = 1 := by
+  unfold process
+  cases tickFails with
+  | true => simp [Gen.Src.c13ProcessTree, processExitCode, Gen.Src.c13ProcessTreeNil1, Gen.Src.c13ProcessTreeKind]
+  | false =>
+    rcases hr : runPres pres tick with ⟨_ | ps, n⟩
+    · simp [processExitCode, Gen.Src.c13ProcessTreeNil1, Gen.Src.c13ProcessTreeKind]
+    · cases he : (run ps).err <;> cases postFails <;>
+        simp [he, Gen.Src.c13ProcessTree, processExitCode, Gen.Src.c13ProcessTreeNil1, Gen.Src.c13ProcessTreeKind]
+
 end AutoVerif.C13
